@@ -209,7 +209,11 @@ impl Add for Value {
             (Value::Duration(ld), Value::DateTime(rdt)) => Ok(Value::DateTime(rdt.add(ld))),
             (Value::Duration(ld), Value::Duration(rd)) => Ok(Value::Duration(ld.add(rd))),
             (Value::Float(lf), Value::Float(rf)) => Ok(Value::Float(lf + rf)),
-            (Value::Int(li), Value::Int(ri)) => Ok(Value::Int(li + ri)),
+            // exact while the result fits an i64, a float beyond that (never a wrapped value)
+            (Value::Int(li), Value::Int(ri)) => Ok(match li.checked_add(ri) {
+                Some(result) => Value::Int(result),
+                None => Value::from_float(li as f64 + ri as f64),
+            }),
             (left, right) => left.binary_op(&f64::add, "+", &right),
         }
     }
@@ -224,7 +228,11 @@ impl Sub for Value {
             (Value::DateTime(ldt), Value::DateTime(rdt)) => Ok(Value::Duration(ldt.sub(rdt))),
             (Value::Duration(ld), Value::Duration(rd)) => Ok(Value::Duration(ld.sub(rd))),
             (Value::Float(lf), Value::Float(rf)) => Ok(Value::Float(lf - rf)),
-            (Value::Int(li), Value::Int(ri)) => Ok(Value::Int(li - ri)),
+            // exact while the result fits an i64, a float beyond that (never a wrapped value)
+            (Value::Int(li), Value::Int(ri)) => Ok(match li.checked_sub(ri) {
+                Some(result) => Value::Int(result),
+                None => Value::from_float(li as f64 - ri as f64),
+            }),
             (left, right) => left.binary_op(&f64::sub, "-", &right),
         }
     }
@@ -238,7 +246,11 @@ impl Mul for Value {
             (Value::Duration(ld), Value::Int(ri)) => Ok(Value::Duration(ld.mul(ri as i32))),
             (Value::Int(li), Value::Duration(rd)) => Ok(Value::Duration(rd.mul(li as i32))),
             (Value::Float(lf), Value::Float(rf)) => Ok(Value::Float(lf * rf)),
-            (Value::Int(li), Value::Int(ri)) => Ok(Value::Int(li * ri)),
+            // exact while the result fits an i64, a float beyond that (never a wrapped value)
+            (Value::Int(li), Value::Int(ri)) => Ok(match li.checked_mul(ri) {
+                Some(result) => Value::Int(result),
+                None => Value::from_float(li as f64 * ri as f64),
+            }),
             (left, right) => left.binary_op(&f64::mul, "*", &right),
         }
     }
